@@ -524,6 +524,12 @@ def run_check(prop, tier, seed, replay=None):
     else:
         cases += list(prop.generate(rng, n, tier))
     obs = run_impl_all(prop, cases)
+    # a replay file written by one of the DIRECTED scenarios (extra_checks) holds a description of that scenario, not a case
+    # of the generator's DSL: re-run the directed scenarios and report those that fail (the same seed regenerates the same ones)
+    directed_replay = None
+    if replay and obs and isinstance(obs[0], dict) and '__driver_error__' in obs[0] and not str(obs[0]['__driver_error__']).startswith('the implementation did not finish'):
+        directed_replay = cases[0]
+        cases, obs = [], []
     failures = []
     hist = {}
     seen = set()
@@ -564,7 +570,7 @@ def run_check(prop, tier, seed, replay=None):
         mismatches = [term_idx[j] for j in mism]
     ctx = {'tier': tier, 'seed': seed, 'rng': rng, 'build_ok': build_ok, 'notes': notes,
            'hist': hist, 'extra_evals': 0, 'extra_nontrivial': 0, 'exhaustive': [], 'broken': broken}
-    if not replay:
+    if not replay or directed_replay is not None:
         # the scenarios of extra_checks run in this process: a watchdog turns a hang or runaway loop of the implementation
         # inside one of them into a reported failure instead of a check that never ends
         import signal
@@ -578,7 +584,11 @@ def run_check(prop, tier, seed, replay=None):
         old_handler = signal.signal(signal.SIGALRM, _alarm)
         signal.alarm(limit)
         try:
-            failures += list(prop.extra_checks(ctx))
+            extra = list(prop.extra_checks(ctx))
+            if directed_replay is not None:
+                same = [f for f in extra if f.case == directed_replay]
+                extra = same or extra
+            failures += extra
         except _ExtraChecksHang:
             failures.append(Failure({'kind': 'extra_checks'}, {'limit_s': limit},
                                     f'a scenario of the directed checks did not finish within {limit} s on the implementation (hang or runaway loop)'))
@@ -668,7 +678,10 @@ def run_check(prop, tier, seed, replay=None):
           'violations': len(lines)}
     with open(f'{VERIF}/evidence/{pid}.json', 'w') as f:
         json.dump(ev, f, indent=1, default=str)
-    if replay:
+    if replay and directed_replay is not None:
+        print(json.dumps({'case': directed_replay, 'directed_scenarios_rerun': True,
+                          'failing': [{'case': f.case, 'observed': f.observed, 'clause': f.clause} for f in failures][:3]}, default=str)[:3000])
+    elif replay:
         print(json.dumps({'case': cases[0], 'observed': obs[0],
                           'oracle': [f.clause for f in failures],
                           'model_mismatch': bool(mismatches)}, default=str)[:3000])
